@@ -21,6 +21,7 @@ func main() {
 	flag.StringVar(&c.DriverPath, "driver", "", "path to pqdriver")
 	flag.StringVar(&c.CorpusDir, "corpus", "", "corpus directory")
 	flag.StringVar(&c.Replay, "replay", "", "replay file")
+	flag.StringVar(&c.Only, "only", os.Getenv("VERIF_ONLY"), "run only the named sub-check")
 	flag.BoolVar(&c.Widen, "widen", false, "run the widened failing-input search")
 	flag.StringVar(&out, "out", "", "result json")
 	worker := flag.String("worker", "", "internal: isolated worker mode")
